@@ -6,39 +6,41 @@ for — through every further history.  Events that share the callable `c` are o
 -/
 namespace Mesa.Devs
 
-/-- the user event with tag `k`, callable `c` and time `t` is waiting (neither cancelled nor dead) or has been executed with
-    the clock at `t` -/
-def Served (k c : Nat) (t : Int) (s : Sim) : Prop :=
-  (∃ e ∈ s.pending, e.isStep = false ∧ e.tag = k ∧ e.fn = c ∧ e.time = t ∧ e.cancelled = false ∧ e.dead = false) ∨
-  (∃ i, LogEntry.user i k t ∈ s.log)
+/-- the user event with tag `k`, callable `c`, event id `i` and time `t` is waiting (neither cancelled nor dead) or has been
+    executed — that very event, `LogEntry.user i k t` — with the clock at `t` -/
+def Served (k c i : Nat) (t : Int) (s : Sim) : Prop :=
+  (∃ e ∈ s.pending, e.isStep = false ∧ e.tag = k ∧ e.fn = c ∧ e.id = i ∧ e.time = t ∧ e.cancelled = false ∧ e.dead = false) ∨
+  LogEntry.user i k t ∈ s.log
 
 /-- no command of the list cancels the event with tag `k` or drops the callable `c` -/
 def Spares (k c : Nat) (cs : List Cmd) : Prop := Cmd.cancel k ∉ cs ∧ Cmd.drop c ∉ cs
 
-/-- none of the callables (event programs, the step body) cancels tag `k` or drops callable `c` -/
+/-- none of the callables (event programs, the step body) cancels tag `k` or drops callable `c`.  The condition is syntactic and
+    ranges over ALL programs of the table, also those no event ever runs: it is sufficient for the event to be spared, not
+    necessary (a program that names `k` but is never scheduled, or whose `cancel k` comes after a `raise`, would be harmless). -/
 def ProgsSpare (k c : Nat) (s : Sim) : Prop := (∀ a, Spares k c (s.prog a)) ∧ Spares k c s.stepProg
 
-theorem served_mono {k c : Nat} {t : Int} {s s' : Sim} (h : Served k c t s)
+theorem served_mono {k c i : Nat} {t : Int} {s s' : Sim} (h : Served k c i t s)
     (hp : ∀ e ∈ s.pending, e.isStep = false → e.tag = k → e.fn = c → e.cancelled = false → e.dead = false → e ∈ s'.pending)
-    (hl : ∀ x ∈ s.log, x ∈ s'.log) : Served k c t s' := by
-  rcases h with ⟨e, he, h1, h2, hc, h3, h4, h5⟩ | ⟨i, hi⟩
-  · exact Or.inl ⟨e, hp e he h1 h2 hc h4 h5, h1, h2, hc, h3, h4, h5⟩
-  · exact Or.inr ⟨i, hl _ hi⟩
+    (hl : ∀ x ∈ s.log, x ∈ s'.log) : Served k c i t s' := by
+  rcases h with ⟨e, he, h1, h2, hc, hid, h3, h4, h5⟩ | hi
+  · exact Or.inl ⟨e, hp e he h1 h2 hc h4 h5, h1, h2, hc, hid, h3, h4, h5⟩
+  · exact Or.inr (hl _ hi)
 
-theorem pushUser_served {k c : Nat} {t : Int} {s : Sim} (h : Served k c t s) (t' : Int) (p a : Nat)
-    (c' : Option Nat := none) : Served k c t (pushUser s t' p a c') :=
+theorem pushUser_served {k c i : Nat} {t : Int} {s : Sim} (h : Served k c i t s) (t' : Int) (p a : Nat)
+    (c' : Option Nat := none) : Served k c i t (pushUser s t' p a c') :=
   served_mono h (fun _ he _ _ _ _ _ => mem_insert.mpr (Or.inr he)) (fun _ hx => hx)
 
-theorem pushStep_served {k c : Nat} {t : Int} {s : Sim} (h : Served k c t s) : Served k c t (pushStep s) :=
+theorem pushStep_served {k c i : Nat} {t : Int} {s : Sim} (h : Served k c i t s) : Served k c i t (pushStep s) :=
   served_mono h (fun _ he _ _ _ _ _ => mem_insert.mpr (Or.inr he)) (fun _ hx => hx)
 
-theorem rearm_served {k c : Nat} {t : Int} {s : Sim} (h : Served k c t s) : Served k c t (rearm s) := by
+theorem rearm_served {k c i : Nat} {t : Int} {s : Sim} (h : Served k c i t s) : Served k c i t (rearm s) := by
   unfold rearm; split
   · exact pushStep_served h
   · exact h
 
-theorem cancelTag_served {k c k' : Nat} {t : Int} {s : Sim} (h : Served k c t s) (hk : k' ≠ k) :
-    Served k c t (cancelTag s k') := by
+theorem cancelTag_served {k c i k' : Nat} {t : Int} {s : Sim} (h : Served k c i t s) (hk : k' ≠ k) :
+    Served k c i t (cancelTag s k') := by
   apply served_mono h
   · intro e he h1 h2 _ _ _
     refine List.mem_map.mpr ⟨e, he, ?_⟩
@@ -47,8 +49,8 @@ theorem cancelTag_served {k c k' : Nat} {t : Int} {s : Sim} (h : Served k c t s)
   · exact fun _ hx => hx
 
 /-- dropping ANOTHER callable does not touch the event -/
-theorem dropFn_served {k c k' : Nat} {t : Int} {s : Sim} (h : Served k c t s) (hk : k' ≠ c) :
-    Served k c t (dropFn s k') := by
+theorem dropFn_served {k c i k' : Nat} {t : Int} {s : Sim} (h : Served k c i t s) (hk : k' ≠ c) :
+    Served k c i t (dropFn s k') := by
   apply served_mono h
   · intro e he h1 _ h2 _ _
     refine List.mem_map.mpr ⟨e, he, ?_⟩
@@ -56,8 +58,8 @@ theorem dropFn_served {k c k' : Nat} {t : Int} {s : Sim} (h : Served k c t s) (h
     simp [this]
   · exact fun _ hx => hx
 
-theorem doCmd1_served {k c : Nat} {t : Int} {s : Sim} (h : Served k c t s) (cm : Cmd)
-    (h1 : cm ≠ .cancel k) (h2 : cm ≠ .drop c) : Served k c t (doCmd1 s cm) := by
+theorem doCmd1_served {k c i : Nat} {t : Int} {s : Sim} (h : Served k c i t s) (cm : Cmd)
+    (h1 : cm ≠ .cancel k) (h2 : cm ≠ .drop c) : Served k c i t (doCmd1 s cm) := by
   cases cm with
   | schedAbs t' p a =>
     simp only [doCmd1, schedAbs]
@@ -88,14 +90,14 @@ theorem doCmd1_served {k c : Nat} {t : Int} {s : Sim} (h : Served k c t s) (cm :
   | halt => exact h
   | raise x => exact h
 
-theorem doCmd_served {k c : Nat} {t : Int} {s : Sim} (h : Served k c t s) (cm : Cmd)
-    (h1 : cm ≠ .cancel k) (h2 : cm ≠ .drop c) : Served k c t (doCmd s cm) := by
+theorem doCmd_served {k c i : Nat} {t : Int} {s : Sim} (h : Served k c i t s) (cm : Cmd)
+    (h1 : cm ≠ .cancel k) (h2 : cm ≠ .drop c) : Served k c i t (doCmd s cm) := by
   unfold doCmd; split
   · exact h
   · exact doCmd1_served h cm h1 h2
 
-theorem foldl_doCmd_served {k c : Nat} {t : Int} {s : Sim} (h : Served k c t s) (cs : List Cmd) (hs : Spares k c cs) :
-    Served k c t (cs.foldl doCmd s) := by
+theorem foldl_doCmd_served {k c i : Nat} {t : Int} {s : Sim} (h : Served k c i t s) (cs : List Cmd) (hs : Spares k c cs) :
+    Served k c i t (cs.foldl doCmd s) := by
   induction cs generalizing s with
   | nil => exact h
   | cons cm cs ih =>
@@ -153,28 +155,28 @@ theorem doCmd_progsSpare {k c : Nat} {s : Sim} (h : ProgsSpare k c s) (cm : Cmd)
 
 /-! one pop-and-execute step -/
 
-theorem popExec_served {k c : Nat} {t : Int} {s : Sim} (h : Served k c t s) (hps : ProgsSpare k c s) {e₀ : Ev} {rest : List Ev}
-    (hp : popLive s.pending = some (e₀, rest)) : Served k c t (exec (popped s e₀ rest) e₀) := by
+theorem popExec_served {k c i : Nat} {t : Int} {s : Sim} (h : Served k c i t s) (hps : ProgsSpare k c s) {e₀ : Ev} {rest : List Ev}
+    (hp : popLive s.pending = some (e₀, rest)) : Served k c i t (exec (popped s e₀ rest) e₀) := by
   obtain ⟨hd, hl⟩ := popLive_decomp hp
   -- either the event is executed now, or it (or its log entry) is still there after the pop
-  have hcase : (e₀.isStep = false ∧ e₀.tag = k ∧ e₀.time = t ∧ e₀.dead = false) ∨ Served k c t (popped s e₀ rest) := by
-    rcases h with ⟨e, he, h1, h2, hc, h3, h4, h5⟩ | ⟨i, hi⟩
+  have hcase : (e₀.isStep = false ∧ e₀.tag = k ∧ e₀.id = i ∧ e₀.time = t ∧ e₀.dead = false) ∨
+      Served k c i t (popped s e₀ rest) := by
+    rcases h with ⟨e, he, h1, h2, hc, hid, h3, h4, h5⟩ | hi
     · rw [hd] at he
       rcases List.mem_append.mp he with he | he
       · have := skipped_cancelled e he
         rw [h4] at this; simp at this
       · rcases List.mem_cons.mp he with rfl | he
-        · exact Or.inl ⟨h1, h2, h3, h5⟩
-        · exact Or.inr (Or.inl ⟨e, he, h1, h2, hc, h3, h4, h5⟩)
-    · exact Or.inr (Or.inr ⟨i, hi⟩)
-  rcases hcase with ⟨h1, h2, h3, h5⟩ | hserved
-  · -- executed now: the log entry carries tag k and the clock e₀.time = t
+        · exact Or.inl ⟨h1, h2, hid, h3, h5⟩
+        · exact Or.inr (Or.inl ⟨e, he, h1, h2, hc, hid, h3, h4, h5⟩)
+    · exact Or.inr (Or.inr hi)
+  rcases hcase with ⟨h1, h2, hid, h3, h5⟩ | hserved
+  · -- executed now: the log entry carries the id, tag k and the clock e₀.time = t
     right
-    refine ⟨e₀.id, ?_⟩
     rw [exec_log]
     apply List.mem_append.mpr
     right
-    simp [entryOf, h5, h1, h2, popped, h3]
+    simp [entryOf, h5, h1, h2, popped, h3, hid]
   · unfold exec
     split
     · exact served_mono hserved (fun e he _ _ _ _ _ => he) (fun _ hx => hx)
@@ -187,8 +189,8 @@ theorem popExec_served {k c : Nat} {t : Int} {s : Sim} (h : Served k c t s) (hps
       · apply foldl_doCmd_served _ _ (hps.1 _)
         exact served_mono hserved (fun e he _ _ _ _ _ => he) (fun x hx => List.mem_append.mpr (Or.inl hx))
 
-theorem runUntil_served {k c : Nat} {t : Int} {f : Nat} {s s' : Sim} {T : Int} (h : Served k c t s) (hps : ProgsSpare k c s)
-    (hr : runUntil f s T = some s') : Served k c t s' := by
+theorem runUntil_served {k c i : Nat} {t : Int} {f : Nat} {s s' : Sim} {T : Int} (h : Served k c i t s) (hps : ProgsSpare k c s)
+    (hr : runUntil f s T = some s') : Served k c i t s' := by
   induction f generalizing s with
   | zero => simp [runUntil] at hr
   | succ f ih =>
@@ -196,10 +198,10 @@ theorem runUntil_served {k c : Nat} {t : Int} {f : Nat} {s s' : Sim} {T : Int} (
     split at hr
     · rename_i hp
       simp only [Option.some.injEq] at hr; subst hr
-      rcases h with ⟨e, he, _, _, _, _, h4, _⟩ | ⟨i, hi⟩
+      rcases h with ⟨e, he, _, _, _, _, _, h4, _⟩ | hi
       · have := popLive_none_all_cancelled hp e he
         rw [h4] at this; simp at this
-      · exact Or.inr ⟨i, hi⟩
+      · exact Or.inr hi
     · rename_i e₀ rest hp
       split at hr
       · split at hr
@@ -207,26 +209,26 @@ theorem runUntil_served {k c : Nat} {t : Int} {f : Nat} {s s' : Sim} {T : Int} (
         · exact ih (popExec_served h hps hp) (exec_progsSpare (s := popped s e₀ rest) hps e₀) hr
       · simp only [Option.some.injEq] at hr; subst hr
         obtain ⟨hd, hl⟩ := popLive_decomp hp
-        rcases h with ⟨e, he, h1, h2, hc, h3, h4, h5⟩ | ⟨i, hi⟩
+        rcases h with ⟨e, he, h1, h2, hc, hid, h3, h4, h5⟩ | hi
         · rw [hd] at he
           rcases List.mem_append.mp he with he | he
           · have := skipped_cancelled e he
             rw [h4] at this; simp at this
-          · refine Or.inl ⟨e, mem_insert.mpr ?_, h1, h2, hc, h3, h4, h5⟩
+          · refine Or.inl ⟨e, mem_insert.mpr ?_, h1, h2, hc, hid, h3, h4, h5⟩
             rcases List.mem_cons.mp he with rfl | he
             · exact Or.inl rfl
             · exact Or.inr he
-        · exact Or.inr ⟨i, hi⟩
+        · exact Or.inr hi
 
-theorem runNext_served {k c : Nat} {t : Int} {s : Sim} (h : Served k c t s) (hps : ProgsSpare k c s) :
-    Served k c t (runNext s) := by
+theorem runNext_served {k c i : Nat} {t : Int} {s : Sim} (h : Served k c i t s) (hps : ProgsSpare k c s) :
+    Served k c i t (runNext s) := by
   unfold runNext
   split
   · rename_i hp
-    rcases h with ⟨e, he, _, _, _, _, h4, _⟩ | ⟨i, hi⟩
+    rcases h with ⟨e, he, _, _, _, _, _, h4, _⟩ | hi
     · have := popLive_none_all_cancelled hp e he
       rw [h4] at this; simp at this
-    · exact Or.inr ⟨i, hi⟩
+    · exact Or.inr hi
   · rename_i e₀ rest hp
     exact popExec_served h hps hp
 
@@ -247,8 +249,8 @@ theorem reachableSparing_from {k c : Nat} {s s' : Sim} (h : ReachableSparing k c
   | next _ ih => exact .next ih
   | caught _ ih => exact .caught ih
 
-theorem served_stays {k c : Nat} {t : Int} {s s' : Sim} (h : Served k c t s) (hps : ProgsSpare k c s)
-    (hr : ReachableSparing k c s s') : Served k c t s' ∧ ProgsSpare k c s' := by
+theorem served_stays {k c i : Nat} {t : Int} {s s' : Sim} (h : Served k c i t s) (hps : ProgsSpare k c s)
+    (hr : ReachableSparing k c s s') : Served k c i t s' ∧ ProgsSpare k c s' := by
   induction hr with
   | refl => exact ⟨h, hps⟩
   | cmd c _ h1 h2 ih => exact ⟨doCmd_served ih.1 c h1 h2, doCmd_progsSpare ih.2 c⟩
@@ -258,10 +260,10 @@ theorem served_stays {k c : Nat} {t : Int} {s s' : Sim} (h : Served k c t s) (hp
 
 /-- a freshly scheduled user event is served -/
 theorem pushUser_serves (s : Sim) (t : Int) (p a : Nat) (c : Option Nat := none) :
-    Served s.nextTag (c.getD s.nextTag) t (pushUser s t p a c) := by
+    Served s.nextTag (c.getD s.nextTag) s.nextId t (pushUser s t p a c) := by
   left
   refine ⟨{ time := t, prio := p, id := s.nextId, tag := s.nextTag, isStep := false, cancelled := false,
-            dead := false, act := a, fn := c.getD s.nextTag }, ?_, rfl, rfl, rfl, rfl, rfl, rfl⟩
+            dead := false, act := a, fn := c.getD s.nextTag }, ?_, rfl, rfl, rfl, rfl, rfl, rfl, rfl⟩
   simp only [pushUser]
   exact mem_insert.mpr (Or.inl rfl)
 
